@@ -195,7 +195,7 @@ def job_findnsb(t, L=0):
     def run(S):
         pre = lambda i: [z3.And(k >= 1, k <= W) for k in i[1]]
         S.check_fn(U, 'findNSB' + sfx, lambda i, o: [('c%d' % k, nsb_goal(i[0][k], i[1][k], o[0][k])) for k in range(n)], pre, unwind=9, bounds='all x, 1 <= n <= %d' % W,
-                   timeout=S.cap(60, 180) if W < 64 else 1500)
+                   timeout=S.cap(200, 400) if W < 64 else 1500)
     return run
 
 def job_bitfield(t):
@@ -297,7 +297,7 @@ def job_float_mult(f, ft):
                 if f == 'floorMultiple': return [('multiple', RGoal('eq', r, z3.ToReal(z3.ToInt(r / m)) * m)), ('below', RGoal('le', r, x)), ('nearest', RGoal('lt', x - r, m))]
                 return [('multiple', RGoal('eq', r, z3.ToReal(z3.ToInt(r / m)) * m)), ('nearest', RGoal('le', 2 * z3.If(r >= x, r - x, x - r), m))]
             kn = ['KF-C18-roundMultiple-floors-float'] if f == 'roundMultiple' else []
-            S.check_fn(U, '%s_%s' % (f, ft), spec, pre, mode='real', known=kn, ins=[[z3.Real('a0'), z3.RealVal(mval)]], name='c18.%s_%s.m=%s' % (f, ft, mval), bounds='rounding-erased; |x| <= 1000; m = %s' % mval, timeout=S.cap(60, 200))
+            S.check_fn(U, '%s_%s' % (f, ft), spec, pre, mode='real', known=kn, ins=[[z3.Real('a0'), z3.RealVal(mval)]], name='c18.%s_%s.m=%s' % (f, ft, mval), bounds='rounding-erased; |x| <= 1000; m = %s' % mval, timeout=S.cap(200, 400))
     return run
 
 def job_gtx_sqrt(S):
@@ -312,7 +312,7 @@ def job_gtx_sqrt(S):
     for nm, sg, bases in (('usqrt', False, (1 << 31, (1 << 32) - 64, 65535 * 65535 - 32)), ('isqrt', True, ((1 << 31) - 64, 46340 * 46340 - 32))):
         for b in bases:
             xin = z3.BitVecVal(b, 32) + z3.ZeroExt(26, lo)
-            S.check_fn(U, nm, sq, None, ins=[[xin]], unwind=40, validate=0, witness=False, solver='z3', timeout=S.cap(60, 200), name='c18.%s.band_%#x' % (nm, b), bounds='%#x <= x < %#x' % (b, b + 64))
+            S.check_fn(U, nm, sq, None, ins=[[xin]], unwind=40, validate=0, witness=False, solver='z3', timeout=S.cap(200, 400), name='c18.%s.band_%#x' % (nm, b), bounds='%#x <= x < %#x' % (b, b + 64))
 
 def jobs(tier):
     q = tier == 'quick'; J = []
